@@ -85,11 +85,20 @@ fn malformed(i: usize) -> Vec<u8> {
 }
 
 fn sources(rng: &mut Rng) -> Vec<SocketAddr> {
+    // different clients that are *close* to each other: neighbours in one /24, two interface ids in
+    // one IPv6 /64, another /64, and IPv4-mapped IPv6 addresses (never the twin of a plain IPv4
+    // address in the list: whether those are one client or two is not for this check to say)
+    let a = rng.range(1, 120);
+    let x = rng.range(1, 0x7fff);
+    let m = rng.range(1, 120);
     let mut v: Vec<SocketAddr> = vec![
-        format!("198.51.100.{}:{}", rng.range(1, 250), rng.range(1024, 65000)).parse().expect("addr"),
-        format!("203.0.113.{}:{}", rng.range(1, 250), rng.range(1024, 65000)).parse().expect("addr"),
-        format!("[2001:db8::{:x}]:{}", rng.range(1, 0xffff), rng.range(1024, 65000)).parse().expect("addr"),
-        format!("[2001:db8:1::{:x}]:{}", rng.range(1, 0xffff), rng.range(1024, 65000)).parse().expect("addr"),
+        format!("198.51.100.{a}:{}", rng.range(1024, 65000)).parse().expect("addr"),
+        format!("198.51.100.{}:{}", a + 1, rng.range(1024, 65000)).parse().expect("addr"),
+        format!("[2001:db8::{x:x}]:{}", rng.range(1024, 65000)).parse().expect("addr"),
+        format!("[2001:db8::{:x}]:{}", x + 1, rng.range(1024, 65000)).parse().expect("addr"),
+        format!("[2001:db8:1::{x:x}]:{}", rng.range(1024, 65000)).parse().expect("addr"),
+        format!("[::ffff:192.0.2.{m}]:{}", rng.range(1024, 65000)).parse().expect("addr"),
+        format!("[::ffff:192.0.2.{}]:{}", m + 1, rng.range(1024, 65000)).parse().expect("addr"),
     ];
     rng.shuffle(&mut v);
     v
@@ -98,7 +107,7 @@ fn sources(rng: &mut Rng) -> Vec<SocketAddr> {
 fn generate(cli: &Cli) -> Vec<Seq> {
     let mut out = vec![];
     let n = cli.scaled(cli.tier.pick(8, 40));
-    let len = if cli.tier == Tier::Quick { 36 } else { 120 };
+    let len = if cli.tier == Tier::Quick { 56 } else { 160 };
     for i in 0..n {
         let mut rng = Rng::stream(cli.seed, 150_000 + i);
         let proxy = match i % 4 {
